@@ -28,7 +28,26 @@ struct FDoc {
     _id: u64,
     a: Option<u64>,
     b: Vec<u64>,
+    t: Option<String>,
     emb: Vector,
+}
+
+/// Text whose BM25 score for the query "foo" decreases with `trank` (equal document lengths,
+/// term frequency = N - trank); trank 0 = no text.
+fn text_of(trank: u64) -> Option<String> {
+    const N: u64 = 14;
+    if trank == 0 {
+        return None;
+    }
+    let tf = N - trank;
+    let mut words = Vec::new();
+    for _ in 0..tf {
+        words.push("foo");
+    }
+    for _ in tf..N {
+        words.push("pad");
+    }
+    Some(words.join(" "))
 }
 
 fn set_of(v: &Value) -> Vec<u64> {
@@ -62,6 +81,7 @@ async fn build_pop(pop: &Value, idx: usize) -> Arc<Collection> {
             async |c| {
                 c.create_btree_index_nx(&["a"]).await?;
                 c.create_btree_index_nx(&["b"]).await?;
+                c.create_bm25_index_nx(&["t"]).await?;
                 c.create_hnsw_index_nx(
                     "emb",
                     HnswConfig {
@@ -91,6 +111,7 @@ async fn build_pop(pop: &Value, idx: usize) -> Arc<Collection> {
             _id: 0,
             a: ia.first().copied(),
             b: b_vals,
+            t: text_of(d["trank"].as_u64().unwrap_or(0)),
             emb: vec![bf16::from_f32(rank as f32), bf16::from_f32(0.0)],
         };
         let id = col.add_from(&doc).await.expect("add");
@@ -207,17 +228,6 @@ fn page_last(full: &[u64], limit: i64) -> Vec<u64> {
     let l = if limit < 0 || limit > 1000 { 1000 } else { limit as usize };
     full[full.len().saturating_sub(l)..].to_vec()
 }
-fn page_search(srch: &[u64], limit: i64) -> Vec<u64> {
-    let l = if limit < 0 {
-        10
-    } else if limit > 1000 {
-        1000
-    } else {
-        limit as usize
-    };
-    srch.iter().take(l).copied().collect()
-}
-
 fn lim_opt(limit: i64) -> Option<usize> {
     if limit < 0 { None } else { Some(limit as usize) }
 }
@@ -306,36 +316,23 @@ async fn main() {
         n_queries += 1;
 
         // limits
-        let (limits, srch): (Vec<i64>, Vec<u64>) = if let Some(pages) = case.get("pages") {
-            (
-                pages
-                    .as_array()
-                    .unwrap()
-                    .iter()
-                    .map(|p| p[0].as_i64().unwrap())
-                    .collect(),
-                vec![],
-            )
-        } else {
-            let mut l: Vec<i64> = vec![-1];
-            l.extend(0..=(n_live as i64 + 1));
-            l.push(1001);
-            (l, ids_of(&case["srch"]))
-        };
-        for (li, limit) in limits.iter().enumerate() {
-            let (e_first, e_last, e_search) = if let Some(pages) = case.get("pages") {
-                let p = &pages[li];
-                let (f, l, s) = (ids_of(&p[1]), ids_of(&p[2]), ids_of(&p[3]));
+        let quick = case.get("pages").is_some();
+        let rows = if quick { case["pages"].as_array().unwrap() } else { case["srch"].as_array().unwrap() };
+        for row in rows {
+            let limit = &row[0].as_i64().unwrap();
+            let (e_first, e_last, e_vec, e_hyb) = if quick {
+                let (f, l) = (ids_of(&row[1]), ids_of(&row[2]));
                 // the harness-side page functions must agree with the spec's
                 assert_eq!(page_first(&full, *limit), f, "harness page_first vs spec");
                 assert_eq!(page_last(&full, *limit), l, "harness page_last vs spec");
                 page_fn_checked += 1;
-                (f, l, s)
+                (f, l, ids_of(&row[3]), ids_of(&row[4]))
             } else {
                 (
                     page_first(&full, *limit),
                     page_last(&full, *limit),
-                    page_search(&srch, *limit),
+                    ids_of(&row[1]),
+                    ids_of(&row[2]),
                 )
             };
             match col.query_ids(filter_of(fjson), lim_opt(*limit)).await {
@@ -357,9 +354,23 @@ async fn main() {
                 limit: lim_opt(*limit),
             };
             match col.search_ids(q).await {
-                Ok(got) if got == e_search => {}
-                Ok(got) => report("search_ids", *limit, &e_search, json!(got)),
-                Err(e) => report("search_ids", *limit, &e_search, json!(format!("error: {e}"))),
+                Ok(got) if got == e_vec => {}
+                Ok(got) => report("search_ids_vector", *limit, &e_vec, json!(got)),
+                Err(e) => report("search_ids_vector", *limit, &e_vec, json!(format!("error: {e}"))),
+            }
+            let q = Query {
+                search: Some(Search {
+                    text: Some("foo".to_string()),
+                    vector: Some(vec![0.0, 0.0]),
+                    ..Default::default()
+                }),
+                filter: Some(filter_of(fjson)),
+                limit: lim_opt(*limit),
+            };
+            match col.search_ids(q).await {
+                Ok(got) if got == e_hyb => {}
+                Ok(got) => report("search_ids_hybrid", *limit, &e_hyb, json!(got)),
+                Err(e) => report("search_ids_hybrid", *limit, &e_hyb, json!(format!("error: {e}"))),
             }
             // filter-only search_ids = smallest-id page with default limit 10
             let q = Query {
@@ -381,7 +392,7 @@ async fn main() {
                     json!(format!("error: {e}")),
                 ),
             }
-            n_queries += 4;
+            n_queries += 5;
         }
     }
     let out = json!({
